@@ -1,8 +1,8 @@
 (* C20 — the search index always matches what the folders contain.
    Model: model/Search.v (document table + counters; the inverted index of probly-search is
    not modelled — it is covered by the rebuilt-index comparison on the implementation only).
-   Inv: every counter equals a recount of the documents and there is at most one document per
-   (folder, secret).  Preserved by add / remove / update, the only operations the storage
+   Inv: every counter (per folder, per kind outside the archive folder, favourites, per tag)
+   equals a recount of the documents and there is at most one document per (folder, secret).  Preserved by add / remove / update, the only operations the storage
    layer and the merge replay perform on the index. *)
 From Coq Require Import List NArith.
 From SosModel Require Import model.Search proofs.Search_Lemmas.
@@ -18,6 +18,8 @@ Notation Inv := (Inv folder id folder_eqb id_eqb).
 
 Theorem C20_inv_empty : Inv (empty_index folder id).
 Proof. exact (inv_empty folder id folder_eqb id_eqb). Qed.
+Theorem C20_inv_new a : Inv (new_index folder id a).
+Proof. exact (inv_new folder id folder_eqb id_eqb a). Qed.
 Theorem C20_inv_add x d : Inv x -> Inv (ix_add folder id folder_eqb id_eqb x d).
 Proof. exact (add_inv folder id folder_eqb id_eqb folder_eqb_spec id_eqb_spec x d). Qed.
 Theorem C20_inv_remove x f i : Inv x -> Inv (ix_remove folder id folder_eqb id_eqb x f i).
@@ -32,11 +34,12 @@ End C20.
 (* non-vacuity: a removal of an absent document leaves the counters alone *)
 Example C20_nonvacuous_remove_absent :
   ix_remove nat nat Nat.eqb Nat.eqb
-    (ix_add nat nat Nat.eqb Nat.eqb (empty_index nat nat) (mkDoc nat nat 1 7 0%N 2%N false)) 1 8
-  = ix_add nat nat Nat.eqb Nat.eqb (empty_index nat nat) (mkDoc nat nat 1 7 0%N 2%N false).
+    (ix_add nat nat Nat.eqb Nat.eqb (empty_index nat nat) (mkDoc nat nat 1 7 0%N 2%N false [])) 1 8
+  = ix_add nat nat Nat.eqb Nat.eqb (empty_index nat nat) (mkDoc nat nat 1 7 0%N 2%N false []).
 Proof. reflexivity. Qed.
 
 Print Assumptions C20_inv_empty.
+Print Assumptions C20_inv_new.
 Print Assumptions C20_inv_add.
 Print Assumptions C20_inv_remove.
 Print Assumptions C20_inv_update.
